@@ -863,6 +863,7 @@ func ruleLoaderCycle(c *Ctx) {
 	c.census("G-ANCESTOR", "marks of the ancestor set", nMarks, 1)
 
 	ruleLoaderGuard(c, ls)
+	ruleLoaderBase(c, ls)
 	ls.checkLoadState(c)
 
 	// --- G-DEPTH: the value compared with the depth limit is the size of the ancestor set
@@ -924,6 +925,13 @@ func ruleLoaderCycle(c *Ctx) {
 				c.check(okD, "G-DEPTH", funcName(f), "depth limit compared with the ancestor depth", bo.Pos(),
 					"the depth limit is compared with the length of the include stack",
 					"the value compared with the include depth limit is not the depth of the include stack (the size of the ancestor set): a wide, shallow include tree trips the depth limit")
+				// G-ORDER: the depth verdict is only asked for a target that is neither an ancestor (that is a cycle,
+				// reported as such) nor already part of the result (a diamond, not an error)
+				notAnc := ls.notInOnChain(c, b, ls.A, 0)
+				notLoaded := ls.L == nil || ls.notInOnChain(c, b, ls.L, 0)
+				c.check(notAnc && notLoaded, "G-ORDER", funcName(f), "depth limit tested after the cycle and already-loaded tests", bo.Pos(),
+					"the depth comparison is only reached for a target that is neither on the include stack nor already loaded",
+					fmt.Sprintf("the include depth limit is tested before the target is known to be neither an ancestor nor already loaded (after ancestor test: %v, after loaded test: %v): at the depth limit a cycle is reported as 'too deep' and a file that is already part of the result produces an error", notAnc, notLoaded))
 			}
 		}
 	}
@@ -1250,6 +1258,13 @@ func ruleLoaderCacheSSA(c *Ctx) *loaderSSA {
 						if typeHasSuffix(x.X.Type(), "ast.Include") && fieldVarOfAddr(x).Name() == "Range" {
 							bad = "the position of the include directive"
 						}
+						if typeHasSuffix(x.X.Type(), "include.Limits") {
+							bad = "a configured limit (" + fieldVarOfAddr(x).Name() + "): a later change of the setting does not reach files judged before"
+						}
+					case *ssa.Field:
+						if typeHasSuffix(x.X.Type(), "include.Limits") {
+							bad = "a configured limit: a later change of the setting does not reach files judged before"
+						}
 					}
 				}
 				c.check(bad == "", "G-CACHEPURE", funcName(f), "cached entry depends on the file alone", mu.Pos(),
@@ -1259,6 +1274,7 @@ func ruleLoaderCacheSSA(c *Ctx) *loaderSSA {
 		}
 	}
 	c.census("G-CACHEPURE", "stores into the per-file cache", nPut, 1)
+	ruleCacheFromDisk(c, ls)
 	ls.checkLoadState(c)
 	return ls
 }
